@@ -3,94 +3,89 @@ import CssVerif.Lemmas.Profiles
 # C14 — the profile registry's verdicts depend on its contents, not its history
 
 Property theorems only (helpers: `Lemmas/Profiles.lean`). Model: `Model/Profiles.lean`, a statement-by-statement
-transcription of class `Profiles` (`cssutils/profiles.py:100-450`), tied to the code by the per-operation
-correspondence of `tools/harness/c14.py`. Regex acceptance is the parameter `accepts`; every theorem holds for all
-of its values, for every base macro table and every fuel (`cfg`).
+transcription of class `Profiles` of `cssutils/profiles.py` as it is now (with the repairs 86e5da6, 8a9e974,
+fb19e57), tied to the code by the per-operation correspondence of `tools/harness/c14.py`. Regex acceptance is the
+parameter `accepts`; every theorem holds for all of its values, for every base macro table and every bound on the
+expansion loop (`cfg`), for all profile names, property tables and macro tables, well formed or not.
 
-`Inv cfg r` (T14.1): names listed once; the raw table covers exactly the names; the macro cache `used` is, look-up
-for look-up, the base macros updated with the macros of the registered profiles in registration order; the
-compiled table has the names as keys in registration order and holds the expansion of each raw definition
-under that environment; `knownNames` is derived from the compiled table.
+`Inv cfg r` (T14.1): names listed once; the raw table covers exactly the names, with complete entries; the macro
+cache `used` is, look-up for look-up, the base macros updated with the macros of the registered profiles in
+registration order; the compiled table has the names as keys in registration order and holds the expansion of each
+raw definition under that environment; `knownNames` is derived from the compiled table.
 
-What the code does NOT keep (all four confirmed on the implementation, listed in `known/C14.json`, negations
-proved below at concrete witnesses):
-* `removeProfile(all=True)` leaves `_usedMacros` as it was                 — `removeAll_inv_partial`, `finding_removeAll`
-* `addProfile` of a registered name with macros leaves stale macros behind  — guard of `addProfile_inv`, `finding_replace`
-* `addProfiles` over a non-empty registry does not re-expand the old ones   — `Good (.addMany _) = False`, `finding_addProfiles`
-* an operation whose expansion fails leaves a half-updated registry         — `Expandable` hypotheses, `finding_failed_add`
+Four defects that broke this on the earlier tree (remove-all kept the macro cache; re-adding a registered name with
+macros kept the replaced macros; bulk add over registered profiles did not re-expand them; a mutator that raised
+left a half-updated registry) are fixed in the code; the histories that exposed them are re-checked below
+(`fixed_*`).
 -/
 namespace CssVerif.C14
 open CssVerif.Profiles
 
-/-! ## T14.1 the invariant is kept -/
+/-! ## T14.1 the invariant is kept by every operation, unconditionally -/
 
-/-- the registry without profiles (what `Profiles.__init__` starts from) satisfies the invariant -/
+/-- the registry without profiles satisfies the invariant -/
 theorem inv_empty (cfg : Cfg) : Inv cfg (empty cfg) :=
   ⟨by simp [empty], by simp [empty, dget], by simp [empty, dget], SameEnv.refl _, rfl, by simp [empty], rfl⟩
 
-/-- `addProfile` under a name that is not registered (any macros: new ones, or ones that shadow token macros,
-general macros or another profile's macros), or of a registered name without macros: no exception, the invariant
-holds afterwards, and the contents are the old ones plus / with the profile — provided the new contents expand.
+/-- `addProfile`, whatever the name (new or registered), the properties and the macros (new ones, ones that shadow
+token macros, general macros or another profile's macros, undefined or cyclic ones) -/
+theorem addProfile_inv (cfg : Cfg) (r : Reg) (p : Str) (ps : Dict PVal) (ms : Option (Dict Str))
+    (hinv : Inv cfg r) : Inv cfg (addProfile cfg r p ps ms).1 :=
+  Profiles.addProfile_inv cfg r p ps ms hinv
 
-Full statement (false, see `finding_replace`): the same without `hguard`. -/
-theorem addProfile_inv_partial (cfg : Cfg) (r : Reg) (p : Str) (ps : Dict PVal) (ms : Option (Dict Str))
-    (hinv : Inv cfg r) (hguard : p ∉ r.names ∨ truthy ms = false)
-    (hexp : Expandable cfg (dset r.raw p { props := some ps, macros := storedMacros r.raw p ms }) (addNames r.names p)) :
-    (addProfile cfg r p ps ms).2 = none ∧ Inv cfg (addProfile cfg r p ps ms).1 ∧
-    (addProfile cfg r p ps ms).1.names = addNames r.names p ∧
-    (addProfile cfg r p ps ms).1.raw = dset r.raw p { props := some ps, macros := storedMacros r.raw p ms } ∧
-    (addProfile cfg r p ps ms).1.default = r.default :=
-  addProfile_inv cfg r p ps ms hinv hguard hexp
+/-- `addProfiles` (bulk add), on an empty registry or over registered profiles, names repeated or not -/
+theorem addProfiles_inv (cfg : Cfg) (r : Reg) (l : List ProfileDef) (hinv : Inv cfg r) :
+    Inv cfg (addProfiles cfg r l).1 :=
+  Profiles.addProfiles_inv cfg r l hinv
 
-/-- `removeProfile` of a registered profile: no exception, invariant kept, the profile is gone and nothing else
-changed — provided what is left still expands (nobody leaned on the removed profile's macros). -/
-theorem removeProfile_inv (cfg : Cfg) (r : Reg) (p : Str) (hinv : Inv cfg r) (hp : p ∈ r.names)
-    (hexp : Expandable cfg (derase r.raw p) (r.names.erase p)) :
-    (removeProfile cfg r (some p)).2 = none ∧ Inv cfg (removeProfile cfg r (some p)).1 ∧
-    (removeProfile cfg r (some p)).1.names = r.names.erase p ∧
-    (removeProfile cfg r (some p)).1.raw = derase r.raw p ∧
-    (removeProfile cfg r (some p)).1.default = r.default :=
-  Profiles.removeProfile_inv cfg r p hinv hp hexp
+/-- `removeProfile(name)` / `removeProfile()`, registered name or not, dependants or not -/
+theorem removeProfile_inv (cfg : Cfg) (r : Reg) (q : Option Str) (hinv : Inv cfg r) :
+    Inv cfg (removeProfile cfg r q).1 :=
+  Profiles.removeProfile_inv cfg r q hinv
 
-/-- `removeProfile(all=True)`, partial: only when the environment of the contents is the base environment
-(e.g. no registered profile has macros). Full statement (false, see `finding_removeAll`): without `hguard`. -/
-theorem removeAll_inv_partial (cfg : Cfg) (r : Reg) (hinv : Inv cfg r)
-    (hguard : SameEnv (envOf cfg.base r.raw r.names) cfg.base) : Inv cfg (removeAll r) :=
-  Profiles.removeAll_inv_partial cfg r hinv hguard
-
-/-- `addProfiles` (bulk add) on a registry without profiles — this is how `Profiles.__init__` fills the registry —
-with entries named apart, each expanding under the joint macro environment: no exception, the invariant holds,
-the contents are the entries in order. Partial: on a registry that already holds profiles the code does not
-re-expand them (see `finding_addProfiles`). -/
-theorem addProfiles_inv_partial (cfg : Cfg) (r : Reg) (l : List ProfileDef) (hinv : Inv cfg r) (hempty : r.names = [])
-    (hnd : (l.map (·.name)).Nodup)
-    (hex : ∀ d ∈ l, ∃ ex, expandDict cfg.fuel (bulkEnv cfg.base l) d.props = .ok ex) :
-    (addProfiles cfg r l).2 = none ∧ Inv cfg (addProfiles cfg r l).1 ∧
-    contents (addProfiles cfg r l).1 = l.map (fun d => { name := d.name, props := d.props, macros := dm d }) ∧
-    (addProfiles cfg r l).1.default = r.default :=
-  addProfiles_inv_empty cfg r l hinv hempty hnd hex
-
-/-- `Profiles()`: for built-in tables whose names differ and whose definitions expand (checked for the generated
-tables by the driver on every run: `initcheck`), construction does not raise and yields a registry that
-satisfies the invariant — so every theorem here applies to all histories that start from a fresh `Profiles()` -/
-theorem init_inv (cfg : Cfg) (l : List ProfileDef) (hnd : (l.map (·.name)).Nodup)
-    (hex : ∀ d ∈ l, ∃ ex, expandDict cfg.fuel (bulkEnv cfg.base l) d.props = .ok ex) :
-    (init cfg l).2 = none ∧ Inv cfg (init cfg l).1 ∧
-    contents (init cfg l).1 = l.map (fun d => { name := d.name, props := d.props, macros := dm d }) := by
-  obtain ⟨h1, h2, h3, _⟩ := addProfiles_inv_empty cfg (empty cfg) l (inv_empty cfg) rfl hnd hex
-  unfold init
-  simp only [h1]
-  exact ⟨trivial, ⟨h2.nodup, h2.rawDom, h2.rawFull, h2.used, h2.ckeys, h2.cvals, rfl⟩, h3⟩
+/-- `removeProfile(all=True)`, from any registry at all -/
+theorem removeAll_inv (cfg : Cfg) (r : Reg) : Inv cfg (removeAll cfg r) :=
+  Profiles.removeAll_inv cfg r
 
 theorem setDefault_inv (cfg : Cfg) (r : Reg) (d : Option (List Str)) (hinv : Inv cfg r) : Inv cfg (setDefault r d) :=
   Profiles.setDefault_inv cfg r d hinv
 
-/-- every history that stays in the good region keeps the invariant, and its effect on the contents and on
-`defaultProfiles` is that of the same operations on a plain list of (name, properties, macros) -/
-theorem run_inv (cfg : Cfg) (r : Reg) (ops : List Op) (hinv : Inv cfg r) (hg : GoodRun cfg r ops) :
-    Inv cfg (run cfg r ops) ∧ contents (run cfg r ops) = crun (contents r) ops ∧
-    (run cfg r ops).default = drun r.default ops :=
-  run_good cfg r ops hinv hg
+/-- every finite history of operations keeps the invariant -/
+theorem run_inv (cfg : Cfg) (r : Reg) (ops : List Op) (hinv : Inv cfg r) : Inv cfg (run cfg r ops) :=
+  Profiles.run_inv cfg r ops hinv
+
+/-- `Profiles()` followed by any history: the invariant holds — for ANY built-in tables (if the constructor's
+`addProfiles` raised, Python would have no object; the model then continues from the empty registry) -/
+theorem reachable_inv (cfg : Cfg) (builtins : List ProfileDef) (ops : List Op) :
+    Inv cfg (run cfg (init cfg builtins).1 ops) := by
+  apply Profiles.run_inv
+  have h := Profiles.addProfiles_inv cfg (empty cfg) builtins (inv_empty cfg)
+  unfold init
+  simp only
+  cases hx : (addProfiles cfg (empty cfg) builtins).2 with
+  | some e => exact h
+  | none => exact ⟨h.nodup, h.rawDom, h.rawFull, h.used, h.ckeys, h.cvals, rfl⟩
+
+/-- and when the built-in names differ (checked for the generated tables on every run: driver `initcheck`), a
+construction that does not raise registers exactly the tables, in order -/
+theorem init_contents (cfg : Cfg) (l : List ProfileDef) (hnd : (l.map (·.name)).Nodup)
+    (hs : (init cfg l).2 = none) :
+    contents (init cfg l).1 = l.map (fun d => { name := d.name, props := d.props, macros := dm d }) := by
+  have hs' : (addProfiles cfg (empty cfg) l).2 = none := by
+    unfold init at hs
+    cases hx : (addProfiles cfg (empty cfg) l).2 with
+    | none => rfl
+    | some e => simp [hx] at hs
+  have := addProfiles_ok_plain cfg (empty cfg) l (inv_empty cfg) (by simp [empty]) hnd hs'
+  unfold init
+  simp only [hs']
+  exact this
+
+/-- an operation that raises — undefined macro, endless macro, unknown profile — leaves the registry exactly as
+it was (this contains T14.5) -/
+theorem rejected_unchanged (cfg : Cfg) (r : Reg) (op : Op) (e : Exc) (h : (step cfg r op).2 = some e) :
+    (step cfg r op).1 = r :=
+  step_fail cfg r op e h
 
 /-- the bound on the expansion loop is no part of any result: a definition that expands with some fuel expands to
 the same text with any larger fuel -/
@@ -121,27 +116,48 @@ theorem contents_determine (cfg : Cfg) (accepts : CVal → Str → Bool) (r₁ r
   exact ⟨ho'.1, ho'.2.2.1, fun n v => validate_obs accepts r₁ r₂ ho n v,
     fun n v ps => validateWithProfile_obs accepts r₁ r₂ ho n v ps, fun ps => propertiesByProfile_obs r₁ r₂ ho ps⟩
 
+/-- in particular for everything reachable from `Profiles()`: two histories that end with the same contents and
+`defaultProfiles` end with the same verdicts -/
+theorem histories_with_same_contents (cfg : Cfg) (accepts : CVal → Str → Bool) (builtins : List ProfileDef)
+    (ops₁ ops₂ : List Op)
+    (hc : contents (run cfg (init cfg builtins).1 ops₁) = contents (run cfg (init cfg builtins).1 ops₂))
+    (hd : (run cfg (init cfg builtins).1 ops₁).default = (run cfg (init cfg builtins).1 ops₂).default) (n v : Str) :
+    validate accepts (run cfg (init cfg builtins).1 ops₁) n v = validate accepts (run cfg (init cfg builtins).1 ops₂) n v ∧
+    (run cfg (init cfg builtins).1 ops₁).known = (run cfg (init cfg builtins).1 ops₂).known := by
+  obtain ⟨_, hk, hv, _, _⟩ := contents_determine cfg accepts _ _ (reachable_inv cfg builtins ops₁)
+    (reachable_inv cfg builtins ops₂) hc hd
+  exact ⟨hv n v, hk⟩
+
+/-- what a history does to the contents: as long as each operation goes through (or is a removal rejected with
+`NoSuchProfileException`) and bulk adds bring new names only, the contents and `defaultProfiles` evolve like a
+plain list of (name, properties, macros) under the same operations -/
+theorem run_contents (cfg : Cfg) (r : Reg) (ops : List Op) (hinv : Inv cfg r) (hq : QuietRun cfg r ops) :
+    contents (run cfg r ops) = crun (contents r) ops ∧ (run cfg r ops).default = drun r.default ops :=
+  Profiles.run_contents cfg r ops hinv hq
+
 /-- adding a profile under a fresh name and removing it again — with any other operations in between that do not
-name it, all inside the good region — leaves a registry that cannot be told from the one that never saw it:
-same `profiles`, `knownNames`, compiled patterns and `defaultProfiles`, hence same verdicts. -/
+name it: additions (with or without macros that shadow built-in ones or the profile's), replacements, bulk adds,
+removals, remove-all, default assignments — leaves a registry that cannot be told from the one that never saw it:
+same `profiles`, `knownNames`, compiled patterns and `defaultProfiles`, hence same verdicts. (`QuietRun`: in both
+histories every operation goes through; e.g. nobody starts to lean on the profile's macros.) -/
 theorem add_remove_interleaved (cfg : Cfg) (r : Reg) (p : Str) (ps : Dict PVal) (ms : Option (Dict Str))
     (ops : List Op) (hinv : Inv cfg r) (hp : p ∉ r.names) (hno : ∀ op ∈ ops, ¬ op.mentions p)
-    (hg₁ : GoodRun cfg r ([.add p ps ms] ++ ops ++ [.remove (some p)])) (hg₂ : GoodRun cfg r ops) :
+    (hq₁ : QuietRun cfg r ([.add p ps ms] ++ ops ++ [.remove (some p)])) (hq₂ : QuietRun cfg r ops) :
     obs (run cfg r ([.add p ps ms] ++ ops ++ [.remove (some p)])) = obs (run cfg r ops) := by
-  obtain ⟨i1, c1, d1⟩ := run_good cfg r _ hinv hg₁
-  obtain ⟨i2, c2, d2⟩ := run_good cfg r _ hinv hg₂
-  apply obs_eq_of_contents cfg _ _ i1 i2
+  obtain ⟨c1, d1⟩ := Profiles.run_contents cfg r _ hinv hq₁
+  obtain ⟨c2, d2⟩ := Profiles.run_contents cfg r _ hinv hq₂
+  apply obs_eq_of_contents cfg _ _ (Profiles.run_inv cfg r _ hinv) (Profiles.run_inv cfg r _ hinv)
   · rw [c1, c2]
     exact add_remove_contents (contents r) p ps ms ops (by rw [contents_names]; exact hp) hno
   · rw [d1, d2]; exact add_remove_default r.default p ps ms ops
 
-/-- the plain case: add, then remove -/
+/-- the plain case: add, then remove; if either step raises, nothing has changed anyway -/
 theorem add_remove (cfg : Cfg) (accepts : CVal → Str → Bool) (r : Reg) (p : Str) (ps : Dict PVal)
     (ms : Option (Dict Str)) (hinv : Inv cfg r) (hp : p ∉ r.names)
-    (hg : GoodRun cfg r [.add p ps ms, .remove (some p)]) (n v : Str) :
+    (hq : QuietRun cfg r [.add p ps ms, .remove (some p)]) (n v : Str) :
     validate accepts (run cfg r [.add p ps ms, .remove (some p)]) n v = validate accepts r n v ∧
     (run cfg r [.add p ps ms, .remove (some p)]).known = r.known := by
-  have h := add_remove_interleaved cfg r p ps ms [] hinv hp (by simp) hg trivial
+  have h := add_remove_interleaved cfg r p ps ms [] hinv hp (by simp) hq trivial
   refine ⟨validate_obs accepts _ _ h n v, ?_⟩
   have h' := h
   simp only [obs, Obs.mk.injEq] at h'
@@ -191,88 +207,77 @@ theorem remove_unknown_rejected_unchanged (cfg : Cfg) (r : Reg) (p : Str) (hinv 
     removeProfile cfg r (some p) = (r, some .noSuchProfile) :=
   removeProfile_unknown cfg r p hinv hp
 
-/-- for EVERY registry (no invariant needed): a `removeProfile` that answers `NoSuchProfileException` has not
-changed anything, and `removeProfile()` without a name always answers so -/
-theorem remove_rejected_unchanged (cfg : Cfg) (r : Reg) (p : Option Str)
-    (h : (removeProfile cfg r p).2 = some .noSuchProfile) : (removeProfile cfg r p).1 = r :=
-  removeProfile_rejected_unchanged cfg r p h
+/-- for EVERY registry (no invariant needed) and every exception: a `removeProfile` that raises has not changed
+anything -/
+theorem remove_rejected_unchanged (cfg : Cfg) (r : Reg) (q : Option Str) (e : Exc)
+    (h : (removeProfile cfg r q).2 = some e) : (removeProfile cfg r q).1 = r :=
+  removeProfile_fail cfg r q e h
 
-/-! ## the four findings, machine-checked at concrete witnesses
+/-! ## the histories that exposed the four repaired defects, re-checked on the model of the repaired code
 
 A tiny configuration: one base macro `c ↦ "r"`. Names `A B X U` = `[65] [66] [88] [85]`, property `x` = `[120]`,
-the pattern `{c}` = `[123, 99, 125]`, macro `m` = `[109]`. In each of the first three, two histories lead to
-registries with the same contents and `defaultProfiles` whose compiled patterns — hence verdicts — differ;
-`contents_determine` therefore cannot hold without the guards above. -/
+the pattern `{c}` = `[123, 99, 125]`, macro `m` = `[109]`. In each of the first three, two histories lead to the
+same contents; on the earlier tree the compiled patterns differed (`…z…` against `…r…`), now they agree — as
+`contents_determine` says they must. These are tests of the model (by evaluation), not theorems about all inputs. -/
 
 def wcfg : Cfg := { base := [([99], [114])], fuel := 4 }
 def xc : Dict PVal := [([120], .pat [123, 99, 125])]
 
-/-- `removeProfile(all=True)` keeps the macro cache -/
-theorem finding_removeAll :
+/-- was C14-removeall-keeps-macros -/
+theorem fixed_removeAll :
     let r₁ := run wcfg (empty wcfg) [.add [65] [] (some [([99], [122])]), .removeAll, .add [66] xc none]
     let r₂ := run wcfg (empty wcfg) [.add [66] xc none]
-    contents r₁ = contents r₂ ∧ r₁.default = r₂.default ∧
-    dget r₁.compiled [66] = some [([120], .re (wrapRe [40, 63, 58, 122, 41]))] ∧
-    dget r₂.compiled [66] = some [([120], .re (wrapRe [40, 63, 58, 114, 41]))] := by
+    contents r₁ = contents r₂ ∧ obs r₁ = obs r₂ ∧
+    dget r₁.compiled [66] = some [([120], .re (wrapRe [40, 63, 58, 114, 41]))] := by
   decide
 
-/-- re-adding a registered name with other macros keeps the replaced macros in use -/
-theorem finding_replace :
+/-- was C14-replace-stale-macros -/
+theorem fixed_replace :
     let r₁ := run wcfg (empty wcfg)
       [.add [88] [] (some [([99], [122])]), .add [88] [] (some [([109], [113])]), .add [66] xc none]
     let r₂ := run wcfg (empty wcfg) [.add [88] [] (some [([109], [113])]), .add [66] xc none]
-    contents r₁ = contents r₂ ∧ r₁.default = r₂.default ∧
-    dget r₁.compiled [66] = some [([120], .re (wrapRe [40, 63, 58, 122, 41]))] ∧
-    dget r₂.compiled [66] = some [([120], .re (wrapRe [40, 63, 58, 114, 41]))] := by
+    contents r₁ = contents r₂ ∧ obs r₁ = obs r₂ ∧
+    dget r₁.compiled [66] = some [([120], .re (wrapRe [40, 63, 58, 114, 41]))] := by
   decide
 
-/-- `addProfiles` over a non-empty registry does not re-expand what is registered -/
-theorem finding_addProfiles :
+/-- was C14-addprofiles-no-reexpansion -/
+theorem fixed_addProfiles :
     let r₁ := run wcfg (empty wcfg)
       [.add [65] xc none, .addMany [{ name := [66], props := [], macros := some [([99], [122])] }]]
     let r₂ := run wcfg (empty wcfg) [.add [65] xc none, .add [66] [] (some [([99], [122])])]
-    contents r₁ = contents r₂ ∧ r₁.default = r₂.default ∧
-    dget r₁.compiled [65] = some [([120], .re (wrapRe [40, 63, 58, 114, 41]))] ∧
-    dget r₂.compiled [65] = some [([120], .re (wrapRe [40, 63, 58, 122, 41]))] := by
+    contents r₁ = contents r₂ ∧ obs r₁ = obs r₂ ∧
+    dget r₁.compiled [65] = some [([120], .re (wrapRe [40, 63, 58, 122, 41]))] := by
   decide
 
-/-- a failed `addProfile` (undefined macro `n`) leaves the name registered without compiled properties:
-`validate` raises `KeyError` for every value no earlier profile accepts, and the profile cannot be removed -/
-theorem finding_failed_add (accepts : CVal → Str → Bool) :
-    let res := addProfile wcfg (empty wcfg) [85] [([120], .pat [123, 110, 125])] none
-    res.2 = some (.keyError [110]) ∧ res.1.names = [[85]] ∧ dget res.1.compiled [85] = none ∧
-    validate accepts res.1 [120] [] = .error (.keyError [85]) ∧
-    (removeProfile wcfg res.1 (some [85])).2 = some .noSuchProfile := by
-  refine ⟨by decide, by decide, by decide, ?_, by decide⟩
-  rfl
+/-- was C14-failed-expansion-partial-update: `addProfile` with the undefined macro `n` raises `KeyError` and the
+registry is the one before -/
+theorem fixed_failed_add :
+    addProfile wcfg (empty wcfg) [85] [([120], .pat [123, 110, 125])] none = (empty wcfg, some (.keyError [110])) := by
+  decide
+
+/-- a self-referential macro: the expansion loop does not end (`diverges` = Python never returns); in the model
+the call is rejected like any other failure and nothing changes -/
+theorem cyclic_macro_rejected :
+    addProfile wcfg (empty wcfg) [85] [([120], .pat [123, 109, 125])] (some [([109], [120, 123, 109, 125])])
+      = (empty wcfg, some .diverges) := by
+  decide
 
 /-! ## non-vacuity: the hypotheses of the theorems above are satisfiable (and used) -/
 
-/-- a history inside the good region: add `A` with a macro that shadows the base macro `c`, add `B` that uses it,
-set a default, remove `A` again — `GoodRun` holds, so `run_inv` applies to it -/
-example : GoodRun wcfg (empty wcfg)
-    [.add [65] [] (some [([99], [122])]), .add [66] xc none, .setDefault (some [[66]]), .remove (some [65])] := by
-  refine ⟨⟨Or.inl (by decide), ?_⟩, ⟨Or.inl (by decide), ?_⟩, trivial, ?_, trivial⟩
-  · intro n hn
-    have : n = [65] := by simpa [addNames, empty] using hn
-    subst this
-    exact ⟨_, rfl⟩
-  · intro n hn
-    have : n = [65] ∨ n = [66] := by
-      have h : n ∈ [[65], [66]] := hn
-      simpa using h
-    cases this with
-    | inl h => subst h; exact ⟨_, rfl⟩
-    | inr h => subst h; exact ⟨_, rfl⟩
-  · intro _ n hn
-    have : n = [66] := by
-      have h : n ∈ [[66]] := hn
-      simpa using h
-    subst this
-    exact ⟨_, rfl⟩
+/-- a history in which everything goes through: add `A` with a macro that shadows the base macro `c`, bulk-add `B`
+that uses it, set a default, remove an unknown name (rejected), remove `A` — `QuietRun` holds -/
+example : QuietRun wcfg (empty wcfg)
+    [.add [65] [] (some [([99], [122])]), .addMany [{ name := [66], props := xc, macros := none }],
+     .setDefault (some [[66]]), .remove (some [67]), .remove (some [65])] := by
+  refine ⟨Or.inl (by decide), trivial, Or.inl (by decide), ⟨by decide, by decide⟩, Or.inl rfl, trivial,
+    Or.inr ⟨⟨_, rfl⟩, by decide⟩, trivial, Or.inl (by decide), trivial, trivial⟩
 
-/-- the guard of `removeAll_inv_partial` is satisfiable with a profile registered -/
-example : SameEnv (envOf wcfg.base (run wcfg (empty wcfg) [.add [65] xc none]).raw
-    (run wcfg (empty wcfg) [.add [65] xc none]).names) wcfg.base := fun _ => rfl
+/-- the two hypotheses of `add_remove_interleaved` together, for a profile `P = [80]` whose macro shadows the base
+macro `c` while another profile that uses `c` is added in between -/
+example : QuietRun wcfg (empty wcfg)
+      ([.add [80] [] (some [([99], [122])])] ++ [.add [66] xc none] ++ [.remove (some [80])]) ∧
+    QuietRun wcfg (empty wcfg) [.add [66] xc none] := by
+  refine ⟨⟨Or.inl (by decide), trivial, Or.inl (by decide), trivial, Or.inl (by decide), trivial, trivial⟩,
+    Or.inl (by decide), trivial, trivial⟩
 
 end CssVerif.C14
